@@ -20,7 +20,7 @@
   Proofs: `Lemmas/G3DumpLemmas.lean`, `Lemmas/G3DumpFloats.lean`.
   Round 10: `C19_block_diagonal_adequate`; `Env.InputOK (dumpOf …)` derived from the decidable input predicate
   `DistinctRoles` (`C19_dump_input_ok`); distance and zenith angle in the one-step theorem by first-order exactness
-  (`C19_first_order_network_is_linear`).  Still open: the horizontal angle in the one-step theorem; a joint ℝ witness
+  (`C19_first_order_network_is_linear`; round 13: the horizontal angle too, `Env.InputOK` unconditional).  Still open: a joint ℝ witness
   of the composite theorems (no C01 witness has the shape of a `dumpOf`, see notes/reports/C19.md round 10).
 -/
 import Gama.Lemmas.G3DumpLemmas
@@ -40,17 +40,14 @@ attribute [local instance 2000] scalarOfField
 
 variable {ι : Type} [DecidableEq ι]
 
-/-- **the dump is the project-equation system of the network theorems**: for `p = dumpOf net sd cls` (sparse rows with
-    distinct column indices in `1..n` — `RowsOK`, what `SparseMatrix` holds when the points of an observation are
-    distinct): `p.A = designOf …`, `p.b = rhsOf …`, `p.S = regSet …` (the hand definition of round 4 is what the model
+/-- **the dump is the project-equation system of the network theorems**: for `p = dumpOf net sd cls` (no hypothesis since round 13): `p.A = designOf …`, `p.b = rhsOf …`, `p.S = regSet …` (the hand definition of round 4 is what the model
     of `Adj::init_least_squares` derives from the presence of the `minx` list), and the list is `RegListOK`. -/
-theorem C19_dump_is_project_equations (net : Net ι ℝ) (sd : ℝ) (cls : List (Cluster ι ℝ))
-    (hrows : RowsOK (dumpOfR net sd cls)) :
+theorem C19_dump_is_project_equations (net : Net ι ℝ) (sd : ℝ) (cls : List (Cluster ι ℝ)) :
     (dumpOfR net sd cls).A = designOf (bookOf net (nobsOf cls)).idx.cols (netEqsR net (nobsOf cls)) ∧
     (dumpOfR net sd cls).b = rhsOf (netEqsR net (nobsOf cls)) ∧
     (dumpOfR net sd cls).S = regSet (bookOf net (nobsOf cls)).idx.cols net.points (bookOf net (nobsOf cls)) ∧
     Env.RegListOK (dumpOfR net sd cls) :=
-  ⟨dump_A net sd cls hrows, dump_b net sd cls, dump_S net sd cls, dump_regListOK net sd cls⟩
+  ⟨dump_A net sd cls (dump_rowsOK' net sd cls), dump_b net sd cls, dump_S net sd cls, dump_regListOK net sd cls⟩
 
 /-- **the covariance blocks are the clusters' active sub-matrices over `apriori_sd²`, element by element**: block `k`
     of the dump is `(dim, band, buffer)` of `Cluster::activeCov()` of the `k`-th cluster that has an active observation,
@@ -95,7 +92,6 @@ theorem C19_full_answer_homogenised (alg : Alg) (halg : alg ≠ .env) (p : Probl
     `Adj` + `alg` answers on gama-g3's input is a least-squares solution of the network's project equations, weights
     from the cluster covariances, minimum norm on the constrained columns. -/
 theorem C19_g3_adjustment_is_ls (net : Net ι ℝ) (sd : ℝ) (cls : List (Cluster ι ℝ))
-    (hin : Env.InputOK (dumpOfR net sd cls))
     (P : Matrix (Fin (dumpOfR net sd cls).m) (Fin (dumpOfR net sd cls).m) ℝ)
     (hP : (dumpOfR net sd cls).C * P = 1) {τ : ℝ} (hτ : GapThresholds τ) (hw : (Svd.wTol : ℝ) ≤ τ)
     (h : RankGap (designOf (bookOf net (nobsOf cls)).idx.cols (netEqsR net (nobsOf cls))) P
@@ -105,10 +101,10 @@ theorem C19_g3_adjustment_is_ls (net : Net ι ℝ) (sd : ℝ) (cls : List (Clust
     IsLSSolution (designOf (bookOf net (nobsOf cls)).idx.cols (netEqsR net (nobsOf cls))) (rhsOf (netEqsR net (nobsOf cls))) P
       (regSet (bookOf net (nobsOf cls)).idx.cols net.points (bookOf net (nobsOf cls)))
       (toVec (bookOf net (nobsOf cls)).idx.cols a.x) (toVec (netEqsR net (nobsOf cls)).length a.r) a.rtr := by
-  have eA := dump_A net sd cls hin.rows
+  have eA := dump_A net sd cls (dump_rowsOK' net sd cls)
   have eb := dump_b net sd cls
   have eS := dump_S net sd cls
-  have := C01_adj_of_gap_all (dumpOfR net sd cls) hin (dump_regListOK net sd cls) P hP hτ hw
+  have := C01_adj_of_gap_all (dumpOfR net sd cls) (dump_inputOK' net sd cls) (dump_regListOK net sd cls) P hP hτ hw
     (by rw [eA, eS]; exact h) (by rw [eA]; exact hsv) alg a hs
   rw [eA, eb, eS] at this
   exact this
@@ -118,7 +114,6 @@ theorem C19_g3_adjustment_is_ls (net : Net ι ℝ) (sd : ℝ) (cls : List (Clust
     positive definiteness comes from), ANY TWO of the four algorithms that answer return the same unknowns, the same
     residuals and the same `[pvv]`. -/
 theorem C19_g3_same_adjustment (net : Net ι ℝ) (sd : ℝ) (cls : List (Cluster ι ℝ))
-    (hin : Env.InputOK (dumpOfR net sd cls))
     (P : Matrix (Fin (dumpOfR net sd cls).m) (Fin (dumpOfR net sd cls).m) ℝ)
     (hP : (dumpOfR net sd cls).C * P = 1) {τ : ℝ} (hτ : GapThresholds τ) (hw : (Svd.wTol : ℝ) ≤ τ)
     (h : RankGap (designOf (bookOf net (nobsOf cls)).idx.cols (netEqsR net (nobsOf cls))) P
@@ -130,15 +125,14 @@ theorem C19_g3_same_adjustment (net : Net ι ℝ) (sd : ℝ) (cls : List (Cluste
     toVec (bookOf net (nobsOf cls)).idx.cols a₁.x = toVec (bookOf net (nobsOf cls)).idx.cols a₂.x ∧
     toVec (netEqsR net (nobsOf cls)).length a₁.r = toVec (netEqsR net (nobsOf cls)).length a₂.r ∧
     a₁.rtr = a₂.rtr :=
-  (C19_g3_adjustment_is_ls net sd cls hin P hP hτ hw h hsv alg₁ a₁ hs₁).unique
-    (C19_g3_adjustment_is_ls net sd cls hin P hP hτ hw h hsv alg₂ a₂ hs₂)
-    (weights_pd (dumpOfR net sd cls) hin.dims P hP Ad bd hh) h.2.resolves
+  (C19_g3_adjustment_is_ls net sd cls P hP hτ hw h hsv alg₁ a₁ hs₁).unique
+    (C19_g3_adjustment_is_ls net sd cls P hP hτ hw h hsv alg₂ a₂ hs₂)
+    (weights_pd (dumpOfR net sd cls) (dump_dims net sd cls) P hP Ad bd hh) h.2.resolves
 
 /-- **a consistent network is reproduced by every algorithm of class `Adj`, no free weight matrix**:
     `C19_consistent_network_reproduced_minx` with `W := P = C⁻¹` of the cluster cofactors (positive definite because the
     block Cholesky accepts them), `S := regSet`, and the solution the one `adjSolve alg` computes on the dump. -/
 theorem C19_g3_consistent_network_reproduced (net : Net ι ℝ) (sd : ℝ) (cls : List (Cluster ι ℝ))
-    (hin : Env.InputOK (dumpOfR net sd cls))
     (P : Matrix (Fin (dumpOfR net sd cls).m) (Fin (dumpOfR net sd cls).m) ℝ)
     (hP : (dumpOfR net sd cls).C * P = 1) {τ : ℝ} (hτ : GapThresholds τ) (hw : (Svd.wTol : ℝ) ≤ τ)
     (h : RankGap (designOf (bookOf net (nobsOf cls)).idx.cols (netEqsR net (nobsOf cls))) P
@@ -154,14 +148,13 @@ theorem C19_g3_consistent_network_reproduced (net : Net ι ℝ) (sd : ℝ) (cls 
           ⟨vecAt (toVec (bookOf net (nobsOf cls)).idx.cols a.x), defect, a.rtr, qxx⟩ var n = some out ∧
         out.dn = 0 ∧ out.de = 0 ∧ out.du = 0 ∧ out.ax = g.X0 ∧ out.ay = g.Y0 ∧ out.az = g.Z0 :=
   C19_consistent_network_reproduced_minx net (nobsOf cls) hcons P
-    (weights_pd (dumpOfR net sd cls) hin.dims P hP Ad bd hh) h.2.resolves _ _ _
-    (C19_g3_adjustment_is_ls net sd cls hin P hP hτ hw h hsv alg a hs)
+    (weights_pd (dumpOfR net sd cls) (dump_dims net sd cls) P hP Ad bd hh) h.2.resolves _ _ _
+    (C19_g3_adjustment_is_ls net sd cls P hP hτ hw h hsv alg a hs)
 
 /-- **one step from displaced coordinates, every algorithm, weights from the covariances**:
     `C19_one_step_network_reproduced` (every project equation satisfied exactly by `ξ` — derived for the linear types by
     `C19_generated_network_is_linear`, for the non-linear types it stays the hypothesis) with `W := P`, the solution that of `adjSolve alg`. -/
 theorem C19_g3_one_step_reproduced (net : Net ι ℝ) (sd : ℝ) (cls : List (Cluster ι ℝ))
-    (hin : Env.InputOK (dumpOfR net sd cls))
     (P : Matrix (Fin (dumpOfR net sd cls).m) (Fin (dumpOfR net sd cls).m) ℝ)
     (hP : (dumpOfR net sd cls).C * P = 1) {τ : ℝ} (hτ : GapThresholds τ) (hw : (Svd.wTol : ℝ) ≤ τ)
     (h : RankGap (designOf (bookOf net (nobsOf cls)).idx.cols (netEqsR net (nobsOf cls))) P
@@ -174,8 +167,8 @@ theorem C19_g3_one_step_reproduced (net : Net ι ℝ) (sd : ℝ) (cls : List (Cl
     (alg : Alg) (a : Answer ℝ) (hs : adjSolve alg (dumpOfR net sd cls) = .ok a) :
     toVec (bookOf net (nobsOf cls)).idx.cols a.x = ξ ∧ toVec (netEqsR net (nobsOf cls)).length a.r = 0 ∧ a.rtr = 0 :=
   C19_one_step_network_reproduced net (nobsOf cls) ξ hlin P
-    (weights_pd (dumpOfR net sd cls) hin.dims P hP Ad bd hh) _ hker _ _ _
-    (C19_g3_adjustment_is_ls net sd cls hin P hP hτ hw h hsv alg a hs)
+    (weights_pd (dumpOfR net sd cls) (dump_dims net sd cls) P hP Ad bd hh) _ hker _ _ _
+    (C19_g3_adjustment_is_ls net sd cls P hP hτ hw h hsv alg a hs)
 
 /-! ### buffer sizing -/
 
@@ -208,38 +201,26 @@ theorem C19_block_diagonal_adequate (net : Net ι ℝ) (sd : ℝ) (cls : List (C
 
 /-! ### round 10: the static hypothesis derived, the non-linear types -/
 
-/-- **`Env.InputOK (dumpOf …)` from ONE decidable predicate on the input** — no record names the same point twice
-    (`DistinctRoles`: `from ≠ to`, `from ≠ left ≠ right ≠ from`).  Then: every covariance block of the dump is a
-    well-formed `BlockDiagonal` block (`activeCov`'s invariant), the block dimensions add up to the number of project
-    equations (Σ `act_dim` = Σ `dimension()` of the active records), and every sparse row has distinct column indices
-    in `1..dm_cols` (`C19_only_free_indices` + `C19_update_index_is_book` + injectivity of `update_index` on the
-    adjusted parameters).  The first two hold unconditionally (`dump_blocksWF`, `dump_dims`). -/
-theorem C19_dump_input_ok (net : Net ι ℝ) (sd : ℝ) (cls : List (Cluster ι ℝ)) (hd : DistinctRoles cls) :
+/-- **`Env.InputOK (dumpOf …)` holds for EVERY g3 network** (round 13; since /repo a7902736 class `Adj` sums
+    coefficients stored under the same column, `Problem.dense` is that sum and `RowsOK` is the range condition only):
+    every covariance block of the dump is a well-formed `BlockDiagonal` block (`activeCov`'s invariant), the block
+    dimensions add up to the number of project equations (Σ `act_dim` = Σ `dimension()` of the active records), and every
+    stored column index is in `1..dm_cols` (`C19_only_free_indices` + `C19_update_index_is_book` + the range of
+    `update_index`) — also for a record from a point to itself.  `DistinctRoles` (round 10) is no longer a hypothesis
+    of any theorem; what it still gives is that the columns of a row are pairwise distinct (`row_columns_ok`). -/
+theorem C19_dump_input_ok (net : Net ι ℝ) (sd : ℝ) (cls : List (Cluster ι ℝ)) :
     Env.InputOK (dumpOfR net sd cls) :=
-  dump_inputOK net sd cls hd
+  dump_inputOK' net sd cls
 
-/-- **`C19_g3_same_adjustment` with the visible hypothesis**: `DistinctRoles` replaces `Env.InputOK` -/
-theorem C19_g3_same_adjustment_distinct (net : Net ι ℝ) (sd : ℝ) (cls : List (Cluster ι ℝ)) (hd : DistinctRoles cls)
-    (P : Matrix (Fin (dumpOfR net sd cls).m) (Fin (dumpOfR net sd cls).m) ℝ)
-    (hP : (dumpOfR net sd cls).C * P = 1) {τ : ℝ} (hτ : GapThresholds τ) (hw : (Svd.wTol : ℝ) ≤ τ)
-    (h : RankGap (designOf (bookOf net (nobsOf cls)).idx.cols (netEqsR net (nobsOf cls))) P
-      (regSet (bookOf net (nobsOf cls)).idx.cols net.points (bookOf net (nobsOf cls))) τ)
-    (hsv : SingGap (designOf (bookOf net (nobsOf cls)).idx.cols (netEqsR net (nobsOf cls))) P τ)
-    (Ad : DMat ℝ) (bd : Array ℝ) (hh : homogenise (dumpOfR net sd cls) = .ok (Ad, bd))
-    (alg₁ alg₂ : Alg) (a₁ a₂ : Answer ℝ)
-    (hs₁ : adjSolve alg₁ (dumpOfR net sd cls) = .ok a₁) (hs₂ : adjSolve alg₂ (dumpOfR net sd cls) = .ok a₂) :
-    toVec (bookOf net (nobsOf cls)).idx.cols a₁.x = toVec (bookOf net (nobsOf cls)).idx.cols a₂.x ∧
-    toVec (netEqsR net (nobsOf cls)).length a₁.r = toVec (netEqsR net (nobsOf cls)).length a₂.r ∧
-    a₁.rtr = a₂.rtr :=
-  C19_g3_same_adjustment net sd cls (dump_inputOK net sd cls hd) P hP hτ hw h hsv Ad bd hh alg₁ alg₂ a₁ a₂ hs₁ hs₂
-
-/-- **`hlin` derived for networks with distances and zenith angles** (item 4 of round 9).  Every active record is a
+/-- **`hlin` derived for networks with distances, zenith angles and horizontal angles** (item 4 of round 9; the
+    horizontal angle since round 13: first-order exact for SOME pair of direction-angle lifts `AngleLift` — the derivative
+    does not depend on the lift, `angle_lift_unique`, by C05's lattice argument).  Every active record is a
     vector / xyz / height / height difference generated from the displaced coordinates (`GeneratedObs`), or a DISTANCE /
-    ZENITH ANGLE whose observed value is first-order exact — observation function at the linearisation point plus its
+    ZENITH ANGLE / HORIZONTAL ANGLE whose observed value is first-order exact — observation function at the linearisation point plus its
     directional derivative along the displacement, the derivative given by `HasDerivAt` of the geometric function (not
     by the coded coefficients): `FirstOrderObs`.  Then every project equation is satisfied exactly by `ξ`.  The
     derivative is identified with the regenerated row by `HasDerivAt.unique` against `C19_coeff_is_derivative_distance`
-    / `C19_coeff_is_derivative_zenith`. -/
+    / `C19_coeff_is_derivative_zenith` / `C19_coeff_is_derivative_angle`. -/
 theorem C19_first_order_network_is_linear (net : Net ι ℝ) (nobs : List (NObs ι ℝ))
     (ξ : Fin (bookOf net nobs).idx.cols → ℝ)
     (hgen : ∀ no ∈ activeOf net nobs, FirstOrderObs net (bookOf net nobs) (vecAt ξ) no.obs no.o) :
@@ -248,7 +229,7 @@ theorem C19_first_order_network_is_linear (net : Net ι ℝ) (nobs : List (NObs 
 
 /-- **one step reproduces a network with distances and zenith angles, every algorithm, weights from the covariances**:
     `C19_g3_one_step_reproduced` with `hlin` from `FirstOrderObs` and `Env.InputOK` from `DistinctRoles` -/
-theorem C19_g3_one_step_first_order_reproduced (net : Net ι ℝ) (sd : ℝ) (cls : List (Cluster ι ℝ)) (hd : DistinctRoles cls)
+theorem C19_g3_one_step_first_order_reproduced (net : Net ι ℝ) (sd : ℝ) (cls : List (Cluster ι ℝ))
     (P : Matrix (Fin (dumpOfR net sd cls).m) (Fin (dumpOfR net sd cls).m) ℝ)
     (hP : (dumpOfR net sd cls).C * P = 1) {τ : ℝ} (hτ : GapThresholds τ) (hw : (Svd.wTol : ℝ) ≤ τ)
     (h : RankGap (designOf (bookOf net (nobsOf cls)).idx.cols (netEqsR net (nobsOf cls))) P
@@ -260,10 +241,39 @@ theorem C19_g3_one_step_first_order_reproduced (net : Net ι ℝ) (sd : ℝ) (cl
     (hker : ∀ g, designOf (bookOf net (nobsOf cls)).idx.cols (netEqsR net (nobsOf cls)) *ᵥ g = 0 → g = 0)
     (alg : Alg) (a : Answer ℝ) (hs : adjSolve alg (dumpOfR net sd cls) = .ok a) :
     toVec (bookOf net (nobsOf cls)).idx.cols a.x = ξ ∧ toVec (netEqsR net (nobsOf cls)).length a.r = 0 ∧ a.rtr = 0 :=
-  C19_g3_one_step_reproduced net sd cls (dump_inputOK net sd cls hd) P hP hτ hw h hsv Ad bd hh ξ
+  C19_g3_one_step_reproduced net sd cls P hP hτ hw h hsv Ad bd hh ξ
     (C19_first_order_network_is_linear net (nobsOf cls) ξ hgen) hker alg a hs
 
+/-- **the lifted horizontal angle has ONE derivative** (round 13): for two sights of non-zero horizontal length moving
+    along lines, any two pairs of polar-angle lifts with the same start values give the same derivative of
+    `angPerLin · (θr − θl)` at 0 — what makes "first-order exact for some lift" (`FirstOrderObs`, angle) a statement
+    about the observation and not about the chosen lift. -/
+theorem C19_angle_lift_unique (xl yl al bl xr yr ar br : ℝ) (hl : xl * xl + yl * yl ≠ 0) (hr : xr * xr + yr * yr ≠ 0)
+    (θl θr φl φr : ℝ → ℝ) (h0l : θl 0 = φl 0) (h0r : θr 0 = φr 0)
+    (pl : ∀ t, Gama.Lin.IsPolarAngle (xl + al * t) (yl + bl * t) (θl t))
+    (pr : ∀ t, Gama.Lin.IsPolarAngle (xr + ar * t) (yr + br * t) (θr t))
+    (ql : ∀ t, Gama.Lin.IsPolarAngle (xl + al * t) (yl + bl * t) (φl t))
+    (qr : ∀ t, Gama.Lin.IsPolarAngle (xr + ar * t) (yr + br * t) (φr t))
+    (v v' : ℝ) (hv : HasDerivAt (fun t => angPerLin * (θr t - θl t)) v 0)
+    (hv' : HasDerivAt (fun t => angPerLin * (φr t - φl t)) v' 0) : v = v' :=
+  angle_lift_unique xl yl al bl xr yr ar br hl hr θl θr φl φr h0l h0r pl pr ql qr v v' hv hv'
+
 /-! ### non-vacuity -/
+
+/-- `FirstOrderObs` for a horizontal angle is satisfiable whenever neither target is in the station's vertical: the
+    lifts and the derivative `C19_coeff_is_derivative_angle` provides, with the observed value
+    `angleFn + (row · x)/scale`, meet it (any displacement `x`) -/
+example (net : Net ι ℝ) (b : Book ι) (x : Nat → ℝ) (f l r : ι) (o : GObs ℝ)
+    (hl : (aLocal (ptsOfR net b.idx.ind (.angle f l r)) .left).e1 * (aLocal (ptsOfR net b.idx.ind (.angle f l r)) .left).e1 +
+     (aLocal (ptsOfR net b.idx.ind (.angle f l r)) .left).e2 * (aLocal (ptsOfR net b.idx.ind (.angle f l r)) .left).e2 ≠ 0)
+    (hr : (aLocal (ptsOfR net b.idx.ind (.angle f l r)) .right).e1 * (aLocal (ptsOfR net b.idx.ind (.angle f l r)) .right).e1 +
+     (aLocal (ptsOfR net b.idx.ind (.angle f l r)) .right).e2 * (aLocal (ptsOfR net b.idx.ind (.angle f l r)) .right).e2 ≠ 0) :
+    ∃ d', (o.v1 - angleFn (ptsOfR net b.idx.ind (.angle f l r)) o) * angScaleR = d' →
+      FirstOrderObs net b x (.angle f l r) o := by
+  obtain ⟨cF, cL, cR, -, φl, φr, b0, b0', bp, bp', hder⟩ := angle_is_derivative (ptsOfR net b.idx.ind (.angle f l r)) o net.tol
+    (xiOf (ptsOfR net b.idx.ind (.angle f l r) .frm) x) (xiOf (ptsOfR net b.idx.ind (.angle f l r) .left) x)
+    (xiOf (ptsOfR net b.idx.ind (.angle f l r) .right) x) hl hr
+  exact ⟨_, fun hobs => ⟨hl, hr, φl, φr, _, ⟨b0, b0', bp, bp'⟩, hder, hobs⟩⟩
 
 /-- `DistinctRoles` is decided on the input: the two-vector network has it, a vector from a point to itself does not -/
 example (c₁ c₂ : Cov.CovMat ℝ) (o₁ o₂ : GObs ℝ) :
